@@ -185,3 +185,31 @@ Lemma add_aborts_and_poisons_when_purged_in_between :
   map thread_result (cf_threads c) = [Some (TOut (OAbort S_gk_charge_user_unwrap)); Some (TOut OBlockRes)] /\
   cf_poisoned c = [L_users].
 Proof. vm_compute. repeat split; reflexivity. Qed.
+
+(* ------------------------------------------------------------------------------------------ *)
+(* the guard is necessary: add_appointment with the locator-cache guard dropped after the look-up (the
+   store happens outside the critical section) — everything else unchanged — misses a breach: the
+   block updates the cache and asks the database between the look-up and the store *)
+Definition cache_section_short (sc : script) (a : app) : prog unit :=
+  acq L_cache ;;; od <- rd (fun t => ti_get (w_cache t) (a_loc a)) ;; rel L_cache ;;;
+  match od with
+  | Some dispute => store_triggered_p sc a dispute
+  | None => store_appointment_p a
+  end.
+
+Definition add_short (sc : script) (signer : option N) (loc : N) (b : blob) (delay sig : N) : prog out :=
+  reach_p ;;;
+  x <- add_pre_p signer loc b delay sig ;;
+  match x with
+  | inl r => Ret (OAddRes r)
+  | inr (a, available, expiry) => cache_section_short sc a ;;; Ret (OAddRes (AddOk (a_start a) (a_sig a) available expiry))
+  end.
+
+Definition w_short_guard : list nat := repeat 0%nat 24 ++ repeat 1%nat 400 ++ repeat 0%nat 40.
+
+Lemma short_guard_misses_the_breach :
+  let r := run_sched w_reg [add_short [] (Some 1) 7 w_blob 20 1; w_connect_dispute] w_short_guard in
+  snd r = [Some (TOut (OAddRes (AddOk 120 1 9 520))); Some (TOut OBlockRes)] /\
+  map a_loc (db_apps (fst r)) = [7] /\ db_trks (fst r) = [] /\
+  ti_get (w_cache (fst r)) 7 = Some 7.
+Proof. vm_compute. repeat split; reflexivity. Qed.
